@@ -80,10 +80,12 @@ def job_limits(job) -> report.JobResult:
     spec = FORMS[job["form"]]
     boundary = b"bnd"
     parts = build_form(spec)
-    body = C.encode_form(parts, boundary)
+    body = C.encode_form(parts, boundary, pad=job.get("pad", b""))
     nparts = len(spec)
     fbytes = sum(n for k, n in spec if k == "field")
     cutlists = [[], list(range(1, len(body))), [len(body) // 2], list(range(7, len(body), 7))]
+    if job.get("pad"):  # a chunk border at every position of the padded delimiters
+        cutlists += [[i] for i in range(1, len(body))]
     shims = C.make_shims()
     factory = C.LenSink if job.get("sink") == "len" else C.Sink  # file_factory is a caller-supplied hook: also one that is falsy while empty
     for mem_none in (False, True):
@@ -131,7 +133,7 @@ def job_limits(job) -> report.JobResult:
                 mp = m.eval(maxp_v, True).as_long()
                 mm = None if mem_none else m.eval(maxm_v, True).as_long()
                 wit = {"form": job["form"], "parts": spec, "cuts": cuts if len(cuts) < 6 else f"every {cuts[1] - cuts[0]}", "cuts_list": cuts,
-                       "max_form_parts": mp, "max_form_memory_size": mm, "sink": job.get("sink")}
+                       "max_form_parts": mp, "max_form_memory_size": mm, "sink": job.get("sink"), "pad_hex": job.get("pad", b"").hex()}
                 with shims.off():
                     cp = concrete_limits(wit)
                 if klass is not None:
@@ -153,7 +155,7 @@ def job_limits(job) -> report.JobResult:
 def concrete_limits(w):
     spec = [tuple(x) for x in w["parts"]]
     boundary = b"bnd"
-    body = bytes(C.encode_form(build_form(spec), boundary))
+    body = bytes(C.encode_form(build_form(spec), boundary, pad=bytes.fromhex(w.get("pad_hex", ""))))
     nparts = len(spec)
     fbytes = sum(n for k, n in spec if k == "field")
     over = nparts > w["max_form_parts"] or (w["max_form_memory_size"] is not None and fbytes > w["max_form_memory_size"])
@@ -307,6 +309,7 @@ def jobs(tier: str):
     out = []
     for i in range(b["forms"]):
         out.append(dict(name=f"limits/form{i}", kind="limits", form=i, weight=20))
+    out.append(dict(name="limits/form3/padded-delimiters", kind="limits", form=3, pad=b" \t" * 20, weight=200))
     for i in (2, 4, 9):  # forms with file parts
         out.append(dict(name=f"limits/form{i}/sink-falsy-while-empty", kind="limits", form=i, sink="len", weight=20))
     out.append(dict(name="twin/limits", kind="limits", form=1, twin=True))
